@@ -201,6 +201,106 @@ def solution_sets(n, M, rng, n_random):
     return uniq
 
 
+# ------------------------------------------------------------------ the listed defect (or2xor)
+
+FINDING_OR2XOR = "C15-or2xor-oracle"
+_or2xor_log = None  # list of (e_in, e_out) while a build() is recording
+_or2xor_depth = 0
+
+
+def install_or2xor_probe():
+    """wrap transform_or2xor.visit *from the harness process* to see the step's top-level input
+    and output (no change of behaviour)"""
+    et = importlib.import_module("qlasskit.boolopt.exp_transformers")
+    cls = et.transform_or2xor
+    if getattr(cls, "_qv_probe", False):
+        return
+    # SympyTransformer.visit is inherited; give the subclass its own recording wrapper
+    base_visit = cls.visit
+
+    def visit(self, e):
+        global _or2xor_depth
+        _or2xor_depth += 1
+        try:
+            out = base_visit(self, e)
+        finally:
+            _or2xor_depth -= 1
+        if _or2xor_depth == 0 and _or2xor_log is not None:
+            _or2xor_log.append((e, out))
+        return out
+
+    cls.visit = visit
+    cls._qv_probe = True
+
+
+def or2xor_attribution(ctx, rec, D):
+    """Is this failing case exactly the listed defect?  (1) the or2xor step changed the meaning of
+    an expression of this predicate; (2) the quirk-model of the step reproduces every output of the
+    step (and the repaired model keeps the meaning); (3) the real circuit's distribution is exactly
+    the recurrence's prediction for the solution set of the *quirk-model's* rewritten predicate."""
+    from . import bexp
+
+    f = next((f for f in ctx.findings if f["id"] == FINDING_OR2XOR), None)
+    if f is None or f.get("status", "open") != "open" or not f.get("_active"):
+        return False
+    log = rec.get("or2xor_log") or []
+    if not log:
+        return False
+    try:
+        pairs = [(bexp.to_json(a), bexp.to_json(b)) for a, b in log]
+    except ValueError:
+        return False
+    reqs = []
+    for a, _ in pairs:
+        reqs.append(dict(op="c15.or2xor", e=a, quirks=["or2xorNoArity"]))
+        reqs.append(dict(op="c15.or2xor", e=a, quirks=[]))
+    rep = ctx.model(reqs)
+    if rep is None:
+        return False
+    misfire = False
+    model_outs = []
+    for i, (a, b) in enumerate(pairs):
+        names = sorted(set(bexp.syms_json(a)) | set(bexp.syms_json(b)))
+        if len(names) > 12:
+            return False
+        mq, m0 = rep[2 * i].get("out"), rep[2 * i + 1].get("out")
+        if mq is None or m0 is None:
+            return False
+        if not set(bexp.syms_json(mq)) <= set(names):
+            return False
+        t_in, t_out, t_mq, t_m0 = (bexp.truth_table(names, [x]) for x in (a, b, mq, m0))
+        if t_mq != t_out or t_m0 != t_in:
+            return False  # the model does not reproduce the step -> not this finding
+        if t_in != t_out:
+            misfire = True
+        model_outs.append(mq)
+    if not misfire:
+        return False
+    # solution set of the rewritten predicate: the oracle's definitions, in order, each through the model
+    oracle = rec["g"].oracle
+    exprs = list(oracle.expressions)
+    argbits = list(oracle.args[0].bitvec)
+    n = rec["n"]
+    if len(argbits) != n:
+        return False
+    # the logged pairs of the oracle's own compilation are the last len(exprs) ones
+    if len(model_outs) < len(exprs):
+        return False
+    defs = model_outs[-len(exprs):]
+    Sq = []
+    for x in range(2 ** n):
+        env = {nm: bool((x >> i) & 1) for i, nm in enumerate(argbits)}
+        for (sym, _), e in zip(exprs, defs):
+            env[sym.name] = bexp.eval_json(e, env)
+        if env.get("_ret"):
+            Sq.append(x)
+    rp = ctx.model([dict(op="c15.predict", n=n, M=len(Sq), k=rec["k"])])
+    if rp is None or not rp[0].get("d"):
+        return False
+    ps, pn = Fraction(rp[0]["ps"], rp[0]["d"]), Fraction(rp[0]["pn"], rp[0]["d"])
+    return all(D[x] == (ps if x in Sq else pn) for x in range(2 ** n))
+
+
 # ------------------------------------------------------------------ one case on the real code
 
 def build(src, element, M, k=None):
@@ -210,6 +310,8 @@ def build(src, element, M, k=None):
     from qlasskit.algorithms.qalgorithm import oraclize
     import qlasskit.types as T
 
+    global _or2xor_log
+    install_or2xor_probe()
     el = element
     if isinstance(element, tuple):
         el = getattr(T, element[0])(element[1])
@@ -222,19 +324,24 @@ def build(src, element, M, k=None):
         d["id"] = 0
     nq, ret = oc.num_qubits, oc["_ret"]
     # the algorithm, from another fresh qlassf
-    qf = qlassf(src)
-    orig = qf.original_f
-    if k is None:
-        g = Grover(qf, el, n_matching=M)
-    else:
-        g = Grover(qf, el, n_iterations=k, n_matching=M)
+    _or2xor_log = []
+    try:
+        qf = qlassf(src)
+        orig = qf.original_f
+        if k is None:
+            g = Grover(qf, el, n_matching=M)
+        else:
+            g = Grover(qf, el, n_iterations=k, n_matching=M)
+        log = _or2xor_log
+    finally:
+        _or2xor_log = None
     qc = g.circuit()
     gl = circ.qc_to_json(qc)
     for d in gl:
         d["id"] = 0
     return dict(g=g, og=og, nq=nq, ret=ret, gates=gl, num_qubits=qc.num_qubits,
                 output_qubits=list(g.output_qubits), k=g.n_iterations, n=g.search_space_size,
-                orig=orig, element=el)
+                orig=orig, element=el, or2xor_log=log)
 
 
 def check_case(ctx, res, case, rec, S, tj, pending, dist_by_S, default_k):
@@ -274,8 +381,13 @@ def check_case(ctx, res, case, rec, S, tj, pending, dist_by_S, default_k):
     if failed is None:
         if key in dist_by_S and dist_by_S[key][0] != D:
             failed = f"output distribution differs from the one of form '{dist_by_S[key][1]}' of the same solution set"
-        dist_by_S.setdefault(key, (D, case["form"]))
-    if failed:
+        else:
+            dist_by_S.setdefault(key, (D, case["form"]))
+    attributed = False
+    if failed and or2xor_attribution(ctx, rec, D):
+        attributed = True
+        res.known(FINDING_OR2XOR)
+    elif failed:
         clean = oracle_clean(rec["og"], rec["nq"], rec["ret"], n, set(S))
         res.violation(case, failed, code=dict(distribution=Df, iterations=rec["k"], oracle_is_clean_xor_oracle=clean),
                       expected="every solution more likely than every non-solution, success > 1/2, same distribution for every form")
@@ -304,7 +416,7 @@ def check_case(ctx, res, case, rec, S, tj, pending, dist_by_S, default_k):
             res.violation(case, f"decoded value of {bs!r}: original predicate gives {holds}, solution set says {x in S}")
             break
     # ---- model requests
-    pending.append(dict(case=case, rec=rec, S=S, tj=tj, D=D, dec=dec_code, default_k=default_k))
+    pending.append(dict(case=case, rec=rec, S=S, tj=tj, D=D, dec=dec_code, default_k=default_k, attributed=attributed))
 
 
 def flush(ctx, res, pending):
@@ -353,7 +465,7 @@ def flush(ctx, res, pending):
         ps, pn = Fraction(rp["ps"], d), Fraction(rp["pn"], d)
         S = set(p["S"])
         bad = [x for x in range(2 ** n) if p["D"][x] != (ps if x in S else pn)]
-        if bad:
+        if bad and not p["attributed"]:  # an attributed case was matched against the quirk-model's set instead
             x = bad[0]
             res.disagree(case, f"exact probability of outcome {x} differs from the reduced model's prediction",
                          code=dict(p=float(p["D"][x]), distribution=[float(v) for v in p["D"]]),
@@ -434,6 +546,8 @@ def run(ctx: Ctx) -> Result:
     for n, M in table(nmax):
         sets = solution_sets(n, M, rng, 0)          # first M, last M, run from 3, spread
         sets = sets if (ctx.thorough and n <= 5) else [sets[0], sets[-1]]
+        if M == 2 and n >= 3:
+            sets = sets + [[0, 2 ** n - 1]]  # two complementary minterms: the trigger family of the listed or2xor defect
         for si, S in enumerate(sets):
             fl, names = forms_for(n, M, S, si)
             for name in names:
